@@ -19,8 +19,8 @@ D(c, k, hdr, dst, cls) == [c |-> c, k |-> k, hdr |-> hdr, dst |-> dst, cls |-> c
 R(s, cls) == [s |-> s, cls |-> cls]
 \* real-socket driver: all clients, all keys and no key, every size class, allowed v4/v6/DNS and forbidden destinations
 GenDgReal == {D(c, k, TRUE, dst, cls) : c \in Clients, k \in Keys \cup {0}, dst \in {1, 2, 4, 10}, cls \in {"0", "1", "1000", "max"}}
-               \cup {D(c, k, FALSE, 1, "1") : c \in Clients, k \in Keys}
-               \cup {D(c, k, TRUE, 3, "1") : c \in Clients, k \in Keys}
+               \cup {D(c, k, FALSE, 1, cls) : c \in Clients, k \in Keys, cls \in {"0", "1", "1000"}}
+               \cup {D(c, k, TRUE, 3, cls) : c \in Clients, k \in Keys, cls \in {"0", "1", "1000"}}
 GenRpReal == {R(s, cls) : s \in {1, 2, 4, 6, 7, 8, 10}, cls \in {"0", "1", "1000"}}
                \cup {R(s, cls) : s \in {1, 4}, cls \in {"fit", "fit1", "big"}}
 \* virtual-time natmap harness: only forwarded datagrams matter (the harness plays the Handle loop)
